@@ -561,7 +561,7 @@ func runServerScenario(t *testing.T, rec *recorder, cfg *sysCfg, seed uint64, sc
 	} else {
 		dial = fmt.Sprintf("127.0.0.1:%d", freePort())
 		if cfg.v6zone {
-			dial = fmt.Sprintf("[::1%%%s]:%d", loopbackName(), freePort())
+			dial = fmt.Sprintf("[%s%%%s]:%d", v6ZoneHost(), loopbackName(), freePort())
 		}
 		addr = "tcp://" + dial
 	}
@@ -1066,6 +1066,21 @@ func loopbackName() string {
 		return ifi.Name
 	}
 	return "lo"
+}
+
+// v6ZoneHost: a link-local address on the loopback interface if the check's network namespace has one (fe80::1: the
+// kernel then reports a scope on both ends of every connection, so the remote addresses carry a zone too), else ::1.
+func v6ZoneHost() string {
+	if ifi, err := net.InterfaceByIndex(1); err == nil {
+		if as, err := ifi.Addrs(); err == nil {
+			for _, a := range as {
+				if n, ok := a.(*net.IPNet); ok && n.IP.Equal(net.ParseIP("fe80::1")) {
+					return "fe80::1"
+				}
+			}
+		}
+	}
+	return "::1"
 }
 
 func haveV6Loopback() bool {
